@@ -542,7 +542,9 @@ func holeKey(job *Job, line, hole, class string) string {
 func (m *Machine) piecesStr(line string, ps []Piece) Str {
 	var out Str
 	for _, p := range ps {
-		if p.Hole == "" {
+		if p.T != nil {
+			out = strConcat(out, mkStrT(p.T))
+		} else if p.Hole == "" {
 			out = strConcat(out, mkStr(p.Const))
 		} else {
 			out = strConcat(out, mkStrT(m.atomFor(line, p.Hole, p.Class)))
@@ -610,6 +612,10 @@ func registerJSON(e *Engine) {
 				return &Opaque{kind: "json.Decoder", data: &decState{toks: tpl.Toks, line: name}}
 			}
 		}
+		if st, ok := tokenizeRope(s); ok {
+			m.note("contract: a line produced by the serialiser is read back by encoding/json as the token stream it was written from (unquote(jstr(x)) = x; number text unchanged)")
+			return &Opaque{kind: "json.Decoder", data: st}
+		}
 		panic(abort("json.NewDecoder on symbolic text that is not a template line"))
 	}
 	in["(*encoding/json.Decoder).UseNumber"] = func(m *Machine, fr *frame, a []Value) Value {
@@ -653,6 +659,9 @@ func registerJSON(e *Engine) {
 			}
 			return Tuple{Iface{t: types.Typ[types.Float64], v: SymFloat{txt}}, Iface{}}
 		case TkBool:
+			if t.BoolT != nil {
+				return Tuple{Iface{t: types.Typ[types.Bool], v: mkBool(t.BoolT)}, Iface{}}
+			}
 			if t.Hole != "" {
 				return Tuple{Iface{t: types.Typ[types.Bool], v: mkBool(TVar(holeKey(m.job, st.line, t.Hole, "B"), SBool))}, Iface{}}
 			}
@@ -874,3 +883,77 @@ var numRe = regexp.MustCompile(`^-?(0|[1-9][0-9]*)(\.[0-9]+)?([eE][-+]?[0-9]+)?$
 func isJSONNumber(s string) bool { return numRe.MatchString(s) }
 
 var _ = sort.Strings
+
+
+// tokenizeRope re-tokenises a rope produced by the serialiser: constant segments are
+// lexed as JSON text; a segment jstr(x) is one string token with content x; an
+// ite(b,"true","false") segment is a boolean token; any other term is number text.
+func tokenizeRope(s Str) (*decState, bool) {
+	st := &decState{}
+	for _, g := range s.segs {
+		if g.t != nil {
+			t := g.t
+			switch {
+			case t.kind == KApp && t.uf && t.op == "jstr":
+				st.toks = append(st.toks, Tok{Kind: TkString, Pieces: []Piece{{T: t.args[0]}}})
+			case t.kind == KApp && t.op == "ite" && t.sort == SStr && len(t.args) == 3 && t.args[1] == TStr("true") && t.args[2] == TStr("false"):
+				st.toks = append(st.toks, Tok{Kind: TkBool, BoolT: t.args[0]})
+			case t.sort == SStr:
+				st.toks = append(st.toks, Tok{Kind: TkNumber, Pieces: []Piece{{T: t}}})
+			default:
+				return nil, false
+			}
+			continue
+		}
+		txt := g.c
+		for i := 0; i < len(txt); {
+			c := txt[i]
+			switch {
+			case c == ' ' || c == ',' || c == ':' || c == '\t' || c == '\n' || c == '\r':
+				i++
+			case c == '{' || c == '}' || c == '[' || c == ']':
+				st.toks = append(st.toks, Tok{Kind: TkDelim, Delim: c})
+				i++
+			case c == '"':
+				j := i + 1
+				for j < len(txt) && txt[j] != '"' {
+					if txt[j] == '\\' {
+						j++
+					}
+					j++
+				}
+				if j >= len(txt) {
+					return nil, false
+				}
+				var v string
+				if err := json.Unmarshal([]byte(txt[i:j+1]), &v); err != nil {
+					return nil, false
+				}
+				st.toks = append(st.toks, Tok{Kind: TkString, Pieces: []Piece{{Const: v}}})
+				i = j + 1
+			case strings.HasPrefix(txt[i:], "true"):
+				st.toks = append(st.toks, Tok{Kind: TkBool, Bool: true})
+				i += 4
+			case strings.HasPrefix(txt[i:], "false"):
+				st.toks = append(st.toks, Tok{Kind: TkBool, Bool: false})
+				i += 5
+			case strings.HasPrefix(txt[i:], "null"):
+				st.toks = append(st.toks, Tok{Kind: TkNull})
+				i += 4
+			case c == '-' || (c >= '0' && c <= '9'):
+				j := i
+				for j < len(txt) && strings.IndexByte("+-0123456789.eE", txt[j]) >= 0 {
+					j++
+				}
+				if !isJSONNumber(txt[i:j]) {
+					return nil, false
+				}
+				st.toks = append(st.toks, Tok{Kind: TkNumber, Pieces: []Piece{{Const: txt[i:j]}}})
+				i = j
+			default:
+				return nil, false
+			}
+		}
+	}
+	return st, true
+}
